@@ -116,10 +116,14 @@ CHECKS = {
              "with axis-aligned rectangular walls are axis-aligned rectangles (derived from the tiling theorems), and "
              "for centroids in general position two patches exchange energy iff no patch rectangle blocks the segment "
              "between their centroids (C07_room_visibility_geometric); a patch never exchanges energy with a patch "
-             "behind it or in its own plane (C07_room_behind_hidden, C07_room_coplanar_hidden).",
+             "behind it or in its own plane (C07_room_behind_hidden, C07_room_coplanar_hidden). For genuine shoebox "
+             "rooms (the walls of sp.testing.shoebox_room_stub, patch size <= every side, 2 eps and 2 eta below the "
+             "patch size) general position is a theorem (C07_shoebox_general_position) and visibility has a closed "
+             "form: two patches exchange energy iff they lie on different walls (C07_shoebox_visibility); every patch "
+             "is visible from a point strictly inside the box (C07_shoebox_point_visibility).",
         note=TRUST + "Winding-number correctness for non-rectangular or rotated surfaces is validated by differential "
-             "testing only. General position of the centroids with respect to the other patches' rectangles is a "
-             "hypothesis of the room theorem.",
+             "testing only. For rooms that are not shoeboxes, general position of the centroids with respect to the "
+             "other patches' rectangles is a hypothesis of the room theorem.",
         technique="Coq proof over ordered field + extracted-model correspondence + exact-rational oracle", ref="5/C07"),
     "C19": dict(
         text="Proof: the Kang list model's order-(k+1) histogram is the stated sum over the patches of all other walls "
@@ -138,7 +142,8 @@ CHECKS = {
              "(ordered field with sqrt/acos laws; R instance shows the laws satisfiable). NOT carried by any theorem: "
              "0 <= share, closed-room shares sum to 1, independence of subdivision (all three are the spherical "
              "angle-excess / Gauss-Bonnet theorem) - exercised only by the failing-input search against an independent "
-             "solid-angle formula.",
+             "solid-angle formula. In a genuine shoebox room every patch is visible from a source or receiver "
+             "strictly inside the box, so the hidden-patch clause is vacuous there (C04_shoebox_all_patches_visible).",
         note=TRUST + "acos/sqrt are abstract operations with stated laws; InstR.v depends on the stdlib real axioms "
              "(sig_not_dec, sig_forall_dec, functional_extensionality_dep, classic). Visibility is an input (C07).",
         technique="Coq proof over ordered field + extracted-model correspondence", ref="5/C04"),
